@@ -8,7 +8,7 @@ Open Scope Q_scope.
 Local Opaque fits_to_array_x fits_to_array_y nearest_x nearest_y rejected to_deg to_cc cut_xwidth cut_ywidth
   xmin_init ymin_init xmax_init ymax_init xmin_upd xmax_upd ymin_upd ymax_upd
   slice_x_lo slice_x_hi slice_y_lo slice_y_hi shift_x shift_y xo_lower xo_upper yo_lower yo_upper
-  shape_lower shape_upper vary_amp vary_xo vary_yo vary_sx vary_sy vary_theta copy_pos_err copy_shape_err
+  shape_lower shape_upper vary_amp vary_xo vary_yo vary_sx vary_sy vary_theta copy_pos_err copy_shape_err copied_err
   flag_PRIORIZED flag_FIXED2PSF flag_NOTFIT array_to_fits_x array_to_fits_y from_cc to_arcsec.
 
 (* ------------------------------------------------------------------------------------------ *)
@@ -358,11 +358,11 @@ Section Output.
     o_island c = k /\ o_source c = j /\ o_uuid c = s_uuid s /\
     o_flags c = Z.lor (Z.lor (Z.lor fl (c_flags (f_par f))) flag_PRIORIZED) (if copy_pos_err st then flag_FIXED2PSF else 0%Z) /\
     o_peak c = c_amp (f_par f) /\
-    o_err_ra c = (if copy_pos_err st then s_err_ra s else f_err_ra f) /\
-    o_err_dec c = (if copy_pos_err st then s_err_dec s else f_err_dec f) /\
-    o_err_a c = (if copy_shape_err st then s_err_a s else f_err_a f) /\
-    o_err_b c = (if copy_shape_err st then s_err_b s else f_err_b f) /\
-    o_err_pa c = (if copy_shape_err st then s_err_pa s else f_err_pa f).
+    o_err_ra c = (if copy_pos_err st then copied_err (s_err_ra s) else f_err_ra f) /\
+    o_err_dec c = (if copy_pos_err st then copied_err (s_err_dec s) else f_err_dec f) /\
+    o_err_a c = (if copy_shape_err st then copied_err (s_err_a s) else f_err_a f) /\
+    o_err_b c = (if copy_shape_err st then copied_err (s_err_b s) else f_err_b f) /\
+    o_err_pa c = (if copy_shape_err st then copied_err (s_err_pa s) else f_err_pa f).
   Proof.
     intros st fl k b j f s. unfold Priorized.to_component. cbn [fst snd].
     destruct (fix_shape _ _ _) as [[a' b'] pa']. cbn. repeat split; reflexivity.
@@ -457,8 +457,8 @@ Section Output.
   (* every output belongs to an accepted input: same uuid, copied uncertainties *)
   Lemma errors_copied : forall st islands c, In c (run st islands) ->
     exists s, In s (accepted_inputs islands) /\ o_uuid c = s_uuid s /\
-      ((st < 2)%Z -> o_err_ra c = s_err_ra s /\ o_err_dec c = s_err_dec s /\ Z.testbit (o_flags c) 2 = true) /\
-      ((st < 3)%Z -> o_err_a c = s_err_a s /\ o_err_b c = s_err_b s /\ o_err_pa c = s_err_pa s).
+      ((st < 2)%Z -> o_err_ra c = copied_err (s_err_ra s) /\ o_err_dec c = copied_err (s_err_dec s) /\ Z.testbit (o_flags c) 2 = true) /\
+      ((st < 3)%Z -> o_err_a c = copied_err (s_err_a s) /\ o_err_b c = copied_err (s_err_b s) /\ o_err_pa c = copied_err (s_err_pa s)).
   Proof.
     intros st islands c Hin. destruct (run_inv _ _ _ Hin) as (k & isle & Hk & Hc).
     destruct (island_out_inv _ _ _ _ Hc) as (fi & fs & n & f & s & Efi & _ & _ & Hs & ->).
